@@ -204,8 +204,9 @@ def run_one(ch, ctx):
     sc.sync_interval = si2
     fo2 = io.BytesIO()
     info2 = {"pair": "bytesio", "second_interval": si2, "first_interval": old}
-    old_codec, old_meta = sc.codec, sc.metadata
+    old_codec, old_meta, old_level = sc.codec, sc.metadata, sc.level
     if ch.chance(30):
+        sc.level = None   # the level was drawn for the first codec and may not exist for the second
         # re-encode: another codec, metadata taken over from the first file as read back (it
         # contains the first file's avro.codec / avro.schema entries): the codec ARGUMENT must win
         sc.codec = ch.pick([c for c in common.CODECS if c != old_codec])
@@ -218,7 +219,7 @@ def run_one(ch, ctx):
     if meta2["codec"] != sc.codec:
         raise Violation("self-describing", "codec-differs", detail=dict(info2, read=meta2["codec"], supplied=sc.codec), scenario=desc)
     sc.sync_interval = old
-    sc.codec, sc.metadata = old_codec, old_meta
+    sc.codec, sc.metadata, sc.level = old_codec, old_meta, old_level
     if len(recs2) != len(recs) or not all(refavro.value_eq(a, b) for a, b in zip(recs, recs2)):
         raise Violation("grouping", "records-depend-on-block-grouping", detail=dict(info2, n1=len(recs), n2=len(recs2)), scenario=desc)
     ctx.evals += 1
